@@ -29,7 +29,11 @@ RULE = (
     "branch count, parent relation, branch lengths, SWC-type groups and radii at compartment centres with the "
     "reference reader up to tree isomorphism (junction branch contracted), plus ncomp-invariance of lengths and "
     "connectivity inside the implementation; an exception from read_swc is a violation (the files are well "
-    "formed); a case (file, options) is distinct/non-trivial if the reference has >=2 sections"
+    "formed); a case (file, options) is distinct/non-trivial if the reference has >=2 sections. Second family "
+    "(both tiers): soma {1 point, 3-point chain} + ONE long unbranched neurite of n traced points for every n in "
+    "2..14 (nearly equal spacing 5.0-5.35 um) with 1-2 short neurites of other types before and/or after it in file "
+    "order (4 layouts) x max_branch_len {None, 3.0 (below the spacing), 5.5105 (just above it: one traced segment per "
+    "piece, i.e. up to 14 pieces), the values with which 2, 3, 10, 11 equal-count pieces fit} x ncomp {1,2}, so that the reader's documented limit of 10 sub-branches is crossed"
 )
 REQUIRED_COVER = [
     "single_point_soma",
@@ -44,6 +48,12 @@ REQUIRED_COVER = [
     "branch_point_with_3_children",
     "root_junction",
     "neurite_on_middle_soma_point",
+    "section_needing_2_pieces",
+    "section_needing_3_pieces",
+    "section_needing_10_pieces",
+    "section_needing_11_pieces",
+    "section_needing_more_than_10_pieces",
+    "section_needing_more_than_10_pieces:followed_by_other_type",
     "agrees_with_reference",
     "agrees_with_reference:three_point_soma",
     "agrees_with_reference:two_neurite_types",
@@ -58,6 +68,9 @@ ASSUMPTIONS = [
     "weaker reading R6: where max_branch_len cuts a section is not documented ('equal parts' vs 'two branches'); "
     "only demanded: a longer section becomes a chain of >=2 same-type branches cut at traced points, lengths add up "
     "to the section, radii follow the section's profile, every piece <= max_branch_len when every traced segment is",
+    "weaker reading R6b: the reader documents that it stops splitting with a warning beyond 10 sub-branches; a "
+    "section rendered by >=10 pieces may therefore keep pieces longer than max_branch_len (lengths only: type "
+    "groups, total length, radii and connectivity are still demanded)",
     "R5 (own first radius where a new type starts) is taken from the comment in _radius_generating_fns and applied "
     "to every section whose type differs from the section (or bare root point) it is attached to",
     "the 0.1 um junction branch (group custom) that joins several sections starting at the root point is contracted "
@@ -165,6 +178,76 @@ def files_of_tier(tier):
     return out
 
 
+# --- family "long_section": ONE long unbranched neurite whose number of traced points crosses the reader's
+# documented limit of 10 sub-branches, with short neurites of other types before/after it in file order
+LONG_N = tuple(range(2, 15))
+LONG_LAYOUTS = {  # neurites at the end of the soma, in file order: (kind, SWC type)
+    "long_then_short": [("long", 3), ("short", 4)],
+    "short_long_short": [("short", 2), ("long", 3), ("short", 4)],
+    "long_short_short": [("long", 3), ("short", 4), ("short", 2)],
+    "short_then_long": [("short", 4), ("long", 3)],
+}
+LONG_DMIN, LONG_DMAX = 5.0, 5.35  # spacing of consecutive traced points lies in [DMIN, DMAX]
+LONG_BELOW_SPACING = 3.0
+LONG_PIECES = (2, 3, 10, 11)
+LONG_NCOMPS = (1, 2)
+
+
+def _spacing(i):
+    return LONG_DMIN + (LONG_DMAX - LONG_DMIN) * ((i * 3) % 7) / 6.0
+
+
+def make_long_swc(soma_pts, n_long, layout):
+    """Soma (1 point or chain 1-2-3) + neurites attached to the last soma point: the long one is a chain of
+    n_long traced points, a short one a chain of 2; nearly equal spacing, generic directions and radii."""
+    rows = []  # (id, type, parent)
+    for i in range(1, soma_pts + 1):
+        rows.append((i, 1, i - 1 if i > 1 else -1))
+    for kind, t in LONG_LAYOUTS[layout]:
+        par = soma_pts
+        for _ in range(n_long if kind == "long" else 2):
+            rows.append((len(rows) + 1, t, par))
+            par = len(rows)
+    pos = {1: (0.0, 0.0, 0.0)}
+    lines = []
+    for i, t, p in rows:
+        if p > 0:
+            z = ((i * 0.6180339887) % 1.0) * 1.6 - 0.8
+            th = 2.399963229 * i
+            c = math.sqrt(1 - z * z)
+            L = SOMA_LEN[i - 1] if i <= soma_pts else _spacing(i)
+            pos[i] = tuple(a + L * b for a, b in zip(pos[p], (c * math.cos(th), c * math.sin(th), z)))
+        r = SOMA_RAD[i - 1] if i <= soma_pts else RAD[(i * 4 + n_long) % len(RAD)]
+        x, y, zz = pos[i]
+        lines.append(f"{i} {t} {x:.4f} {y:.4f} {zz:.4f} {r:.4f} {p}")
+    return "\n".join(lines) + "\n"
+
+
+def long_grid(soma_pts, n_long):
+    """max_branch_len in {None, below the point spacing, just above it} + for k in (2,3,10,11) the smallest round value with which
+    a cut of the long section into k parts with (almost) equally many traced segments fits (for the section's
+    number of segments S this needs exactly k pieces whenever ceil(S/(k-1)) > ceil(S/k)); x ncomp {1,2}."""
+    nseg = n_long if soma_pts == 3 else n_long - 1  # the gap to a single-point soma has no length
+    mbls = [None, LONG_BELOW_SPACING, round(LONG_DMAX * 1.03, 4)]  # .., just above the spacing: one segment per piece
+    for k in LONG_PIECES:
+        if 2 <= k <= nseg:
+            v = round(-(-nseg // k) * LONG_DMAX * 1.03, 4)
+            if v not in mbls:
+                mbls.append(v)
+    return [{"ncomp": nc, "max_branch_len": mbl, "min_radius": None} for mbl in mbls for nc in LONG_NCOMPS]
+
+
+def long_files():
+    out = []
+    for soma_pts in (1, 3):
+        for n_long in LONG_N:
+            for layout in LONG_LAYOUTS:
+                out.append({"swc": make_long_swc(soma_pts, n_long, layout), "family": "long_section",
+                            "soma_pts": soma_pts, "n_long": n_long, "layout": layout,
+                            "grid": long_grid(soma_pts, n_long)})
+    return out
+
+
 def option_grid():
     return [
         {"ncomp": nc, "max_branch_len": mbl, "min_radius": mr}
@@ -177,6 +260,13 @@ def option_grid():
 def explore(ctx):
     files = files_of_tier(ctx.tier)
     ctx.note("files", len(files))
+    longs = long_files()
+    ctx.note("long_section_files", len(longs))
+    ctx.note("long_section_reads", sum(len(f["grid"]) for f in longs))
+    ctx.note("long_section_bound", f"soma {{1,3 points}} x long chain of n in {list(LONG_N)} traced points x layouts "
+                                   f"{list(LONG_LAYOUTS)} x max_branch_len {{None, {LONG_BELOW_SPACING} (below spacing), "
+                                   f"{round(LONG_DMAX * 1.03, 4)} (one segment per piece), fits {list(LONG_PIECES)} pieces}} x ncomp {list(LONG_NCOMPS)}")
+    files = files + longs
     ctx.note("options_per_file", len(option_grid()))
     ctx.note("bound", "quick: trees <=6 points; thorough: <=8 points; soma {1 point, 3-point chain}; 4 type patterns; "
                       f"ncomp {list(NCOMPS)}; max_branch_len [None, {MBL}]; min_radius [None, {MIN_RADIUS}]")
@@ -412,7 +502,30 @@ def _cover(ref, branches, opts, contracted):
             cov.append("min_radius_clips")
     if contracted:
         cov.append("root_junction_contracted")
+    if mbl is not None:
+        for s_ in secs:
+            if s_["zero_length"] or s_["length"] <= mbl:
+                continue
+            need = min_pieces(s_["segs"], mbl)
+            if need in LONG_PIECES:
+                cov.append(f"section_needing_{need}_pieces")
+            if len(s_["segs"]) >= 11 and (need is None or need > 10):
+                cov.append("section_needing_more_than_10_pieces")
+                if any(t_["type"] != s_["type"] and t_["points"][0] > s_["points"][-1] for t_ in secs):
+                    cov.append("section_needing_more_than_10_pieces:followed_by_other_type")
     return cov
+
+
+def min_pieces(segs, mbl):
+    """Smallest number of pieces, cut at traced points, with every piece <= mbl (None if a segment is longer)."""
+    if any(d > mbl for d in segs):
+        return None
+    n, acc = 1, 0.0
+    for d in segs:
+        if acc + d > mbl:
+            n, acc = n + 1, 0.0
+        acc += d
+    return n
 
 
 def file_cover(ref):
@@ -450,6 +563,8 @@ def file_cover(ref):
         cov.append("zero_length_section")
     if any(s["length"] > MBL for s in ref["sections"]):
         cov.append("max_branch_len_split")
+    if any(len(s["segs"]) >= 11 for s in ref["sections"]):
+        cov.append("section_with_11_or_more_segments")
     return sorted(set(cov))
 
 
@@ -458,22 +573,22 @@ def _invariance(text, obs_by_opts):
     vio = []
     ref = refswc.read(text)
     soma, _ = _file_class(ref)
-    for mbl in (None, MBL):
-        for mr in (None, MIN_RADIUS):
-            base = obs_by_opts.get((NCOMPS[0], mbl, mr))
-            if base is None:
-                continue
-            for nc in NCOMPS[1:]:
-                o = obs_by_opts.get((nc, mbl, mr))
-                if o is None:
-                    continue
+    groups = {}
+    for (nc, mbl, mr) in obs_by_opts:
+        groups.setdefault((mbl, mr), []).append(nc)
+    for (mbl, mr), ncs in groups.items():
+        ncs = sorted(ncs)
+        if True:
+            base = obs_by_opts[(ncs[0], mbl, mr)]
+            for nc in ncs[1:]:
+                o = obs_by_opts[(nc, mbl, mr)]
                 same = o["parents"] == base["parents"] and len(o["lengths"]) == len(base["lengths"]) and all(
                     abs(a - b) <= 1e-9 * (1 + abs(a)) for a, b in zip(o["lengths"], base["lengths"])
                 )
                 if not same:
                     sig = {"rule": "ncomp_invariance", "soma": soma, "needs_max_branch_len": mbl is not None}
-                    wit = {"swc": text, "ncomp": NCOMPS[0], "ncomp_b": nc, "max_branch_len": mbl, "min_radius": mr}
-                    vio.append({"sig": sig, "witness": wit, "msg": f"ncomp={NCOMPS[0]}: {base}; ncomp={nc}: {o}"})
+                    wit = {"swc": text, "ncomp": ncs[0], "ncomp_b": nc, "max_branch_len": mbl, "min_radius": mr}
+                    vio.append({"sig": sig, "witness": wit, "msg": f"ncomp={ncs[0]}: {base}; ncomp={nc}: {o}"})
     return vio
 
 
@@ -484,7 +599,7 @@ def work(item):
     out["cover"] += file_cover(ref)
     obs = {}
     plain_rules = {}
-    for o in option_grid():  # max_branch_len=None comes first
+    for o in item.get("grid") or option_grid():  # max_branch_len=None comes first
         out["evals"] += 1
         key = (o["ncomp"], o["min_radius"])
         vio, info = check_one(text, o["ncomp"], o["max_branch_len"], o["min_radius"],
@@ -500,7 +615,7 @@ def work(item):
     out["violations"] += _invariance(text, obs)
     out["cover"] = sorted(set(out["cover"]))
     out["sample"] = {"swc": text, "tree": item.get("parents"), "pattern": item.get("pattern"),
-                     "reference_sections": refswc.summary(ref)}
+                     "family": item.get("family", "trees"), "reference_sections": refswc.summary(ref)}
     return out
 
 
